@@ -206,9 +206,21 @@ int main(int argc, char **argv)
 	static const size_t out_sizes[] = { 0, 1, 100, 5000, 65536, (size_t)-1 };
 	lzma_ret ret = LZMA_OK;
 	lzma_action pending_action = LZMA_RUN;   // a flush in progress must be repeated with the same input
+	long reinit_after = arg(argc, argv, "reinit_after", -1);
+	int reinited = 0;
 	while (1) {
 		if (endafter >= 0 && calls >= endafter)
 			break;
+		if (!reinited && reinit_after >= 0 && calls >= reinit_after) {
+			// give the same lzma_stream to the constructor again without lzma_end() and start over
+			record("AppReinit", -1, 0, 0, 0, 0);
+			r = enc ? lzma_stream_encoder_mt(&strm, &mt) : lzma_stream_decoder_mt(&strm, &mt);
+			record("Reinited", -1, r, 0, 0, 0);
+			if (r != LZMA_OK) break;
+			reinited = 1; ip = 0; op = 0; strm.avail_in = 0; next_act = 0; pending_action = LZMA_RUN;
+			if (endafter >= 0) endafter += calls;
+			continue;
+		}
 		size_t limit = (size_t)flen;
 		lzma_action action;
 		if (pending_action != LZMA_RUN) {
